@@ -130,6 +130,7 @@ func vfKnown(sig string, c bool) {}
 func vfCover(id string)          { vfRtRes.Reached = append(vfRtRes.Reached, id) }
 func vfSymbolic() bool           { return false }
 func vfYield()                   {}
+func vfQuiesce()                 { vftime.Sleep(30 * vftime.Millisecond) }
 func vfFreeze(x any)             {}
 func vfThaw(x any)               {}
 func vfTier() int                { return vfRtCur.Tier }
